@@ -36,6 +36,13 @@ var errTemplates = map[string]string{
 	"unknown password hash type %q":          "EFmt T_pw_type",
 	"invalid time spec %q: %w":               "EFmt T_time_spec",
 	"unknown data input token %q":            "EFmt T_unknown_token",
+	"nil URL provided":                                  "EFmt T_url_nil",
+	"invalid URL scheme: %s":                            "EFmt T_url_scheme",
+	"unsupported OTP type: %s":                          "EFmt T_url_type",
+	"invalid label format, expected Issuer:AccountName": "EFmt T_url_label",
+	"invalid digits value: %s":                          "EFmt T_url_digits",
+	"unsupported algorithm: %s":                         "EFmt T_url_alg",
+	"invalid period value: %s":                          "EFmt T_url_period",
 	"invalid decimal %q":                 "EFmt T_invalid_decimal",
 	"failed to decode counter: %w":       "EStd T_hex_counter",
 	"failed to decode challenge: %w":     "EStd T_hex_challenge",
@@ -212,6 +219,11 @@ func (fc *fctx) unary(e *ast.UnaryExpr) string {
 		if fc.t.kindOf(fc.typeOf(e)) == kParamPtr {
 			return "(Some " + fc.expr(e.X) + ")"
 		}
+		if k := fc.t.kindOf(fc.typeOf(e)); k == kUParamPtr || k == kURLPtr {
+			if cl, ok := e.X.(*ast.CompositeLit); ok {
+				return "(Some " + fc.composite(cl) + ")"
+			}
+		}
 		if fc.t.kindOf(fc.typeOf(e)) == kSuitePtr {
 			return fc.expr(e.X) // passed to an in/out parameter: the callee returns the new value
 		}
@@ -375,7 +387,7 @@ func (fc *fctx) compare(e *ast.BinaryExpr, kx kind) string {
 		k := fc.kind(x)
 		var s string
 		switch k {
-		case kErr, kParamPtr:
+		case kErr, kParamPtr, kURLPtr, kUParamPtr:
 			s = "(is_some " + fc.expr(x) + ")"
 		default:
 			t.fail(e, "comparison of %s with nil", fc.typeOf(x))
@@ -469,6 +481,9 @@ func (fc *fctx) index(e *ast.IndexExpr) string {
 			if g, ok := t.globalNames[id.Name]; ok && t.globalTables[id.Name] {
 				return fc.bind("idxN " + g + " " + fc.toZ(e.Index))
 			}
+			if g, ok := t.globalNames[id.Name]; ok && t.globalAssoc[id.Name] {
+				return "(assoc_str " + g + " " + fc.expr(e.Index) + ")"
+			}
 			if id.Name == "knownSuites" {
 				return "(fst (lookup_go " + fc.expr(e.Index) + "))"
 			}
@@ -528,6 +543,8 @@ func (fc *fctx) selector(e *ast.SelectorExpr) string {
 		recv = p.Elem()
 		if t.kindOf(sel.Recv()) == kParamPtr {
 			x = fc.bind("deref " + x)
+		} else if k := t.kindOf(sel.Recv()); k == kURLPtr || k == kUParamPtr {
+			x = fc.bind("deref " + x)
 		} else if t.kindOf(sel.Recv()) == kSuitePtr {
 			// an in/out parameter: always the address of a caller's variable
 		} else {
@@ -545,6 +562,15 @@ func (fc *fctx) selector(e *ast.SelectorExpr) string {
 		}
 		sname = "SuiteConfig"
 	}
+	if sname == "URL" && named.Obj().Pkg() != nil && named.Obj().Pkg().Path() == "net/url" {
+		for _, f := range urlFields {
+			pf := strings.Split(f, ":")
+			if pf[0] == e.Sel.Name && pf[0] != "User" {
+				return "(" + pf[1] + " " + x + ")"
+			}
+		}
+		t.fail(e, "field %s of url.URL", e.Sel.Name)
+	}
 	if _, ok := fieldProj[sname]; !ok {
 		t.fail(e, "field of %s", sname)
 	}
@@ -556,6 +582,61 @@ func (fc *fctx) composite(e *ast.CompositeLit) string {
 	ty := fc.typeOf(e)
 	if len(e.Elts) == 0 {
 		return t.zero(e, ty)
+	}
+	if fc.kind(e) == kPairs {
+		var items []string
+		for _, el := range e.Elts {
+			kv, ok := el.(*ast.KeyValueExpr)
+			if !ok {
+				t.fail(e, "map literal element")
+			}
+			items = append(items, "("+fc.expr(kv.Key)+", "+fc.expr(kv.Value)+")")
+		}
+		return "[" + strings.Join(items, "; ") + "]"
+	}
+	if named, ok := ty.(*types.Named); ok && (named.Obj().Name() == "URLParam" || named.Obj().Name() == "URL") {
+		vals := map[string]string{}
+		for _, el := range e.Elts {
+			kv, ok := el.(*ast.KeyValueExpr)
+			if !ok {
+				t.fail(e, "positional struct literal")
+			}
+			vals[kv.Key.(*ast.Ident).Name] = fc.expr(kv.Value)
+		}
+		var parts []string
+		if named.Obj().Name() == "URLParam" {
+			st := named.Underlying().(*types.Struct)
+			for _, f := range fieldProj["URLParam"] {
+				name := strings.Split(f, ":")[0]
+				if v, ok := vals[name]; ok {
+					parts = append(parts, v)
+					delete(vals, name)
+				} else {
+					for i := 0; i < st.NumFields(); i++ {
+						if st.Field(i).Name() == name {
+							parts = append(parts, t.zero(e, st.Field(i).Type()))
+						}
+					}
+				}
+			}
+			if len(vals) != 0 {
+				t.fail(e, "URLParam literal with a field the model does not have")
+			}
+			return "(mkUrlParam " + strings.Join(parts, " ") + ")"
+		}
+		for _, f := range urlFields {
+			pf := strings.Split(f, ":")
+			if v, ok := vals[pf[0]]; ok {
+				parts = append(parts, v)
+				delete(vals, pf[0])
+			} else {
+				parts = append(parts, pf[2])
+			}
+		}
+		if len(vals) != 0 {
+			t.fail(e, "url.URL literal with a field the model does not have")
+		}
+		return "(mkUrl " + strings.Join(parts, " ") + ")"
 	}
 	if named, ok := ty.(*types.Named); ok && named.Obj().Name() == "RawSuite" && len(e.Elts) == 1 {
 		if kv, ok := e.Elts[0].(*ast.KeyValueExpr); ok {
